@@ -214,7 +214,10 @@ class ParseCache:
         if optimize:
             pickled = pickletools.optimize(pickled)
 
-        util.atomic_write(path, gzip.compress(pickled, mtime=0), path.parent)
+        try:
+            util.atomic_write(path, gzip.compress(pickled, mtime=0), path.parent)
+        except OSError as err:
+            logger.warning("Error writing cache file: %s", err)
 
     def generate_specifier(self) -> Tuple[str, ...]:
         return (
